@@ -510,6 +510,8 @@ structure Graph where
   /-- class id ↦ its arguments -/
   classes : List (List ArgDecl)
   nodes : List Node
+  /-- the class ids that are `Task` subclasses (`ObjectType.task` is set) -/
+  tasks : List Nat := []
 deriving Repr
 
 def Graph.args (g : Graph) (c : Nat) : List ArgDecl := g.classes.getD c []
@@ -619,5 +621,103 @@ def submit (I : Impl) (g : Graph) (s : Sched) (root : Nat) : Out × Sched :=
   match validateGraph I g root with
   | .ok => (.ok, { s with jobs := root :: s.jobs })
   | o => (o, s)
+
+/-! ### Histories: several assignments and submit attempts over the same objects
+
+`ConfigInformation.submit` stores `self.job` (l.974) *before* `validate_and_seal` and leaves it there when
+the validation raises; `ObjectType.validate` only asks for that attribute when a task is given as a
+parameter value ("The value must be submitted before giving it").  A task whose submission was rejected
+can therefore be given to another task. -/
+
+structure HState where
+  g : Graph
+  /-- `_validated` -/
+  flags : List Nat := []
+  /-- nodes whose `job` attribute is set (registered or not) -/
+  jobAttr : List Nat := []
+  /-- `_sealed` -/
+  sealed : List Nat := []
+  /-- `xp.scheduler.jobs` -/
+  registry : List Nat := []
+deriving Repr
+
+inductive HOp
+  /-- `node.submit()` -/
+  | submit (n : Nat)
+  /-- `node.<k-th argument> = v` -/
+  | assign (n k : Nat) (v : PyVal)
+deriving Repr
+
+inductive HOut
+  | accepted
+  /-- the validation raised (`ValueError`) -/
+  | rejected (o : Out)
+  /-- "task … was already submitted" (`Exception`) -/
+  | already
+  /-- "… is not a task" (`ValueError`) -/
+  | notTask
+  | stored
+  /-- sealed object, generated or constant argument (`AttributeError`) -/
+  | readonly
+  /-- `TypeError`/`ValueError` of the type validation, or a task value without `job` -/
+  | invalid
+  | noSuchNode
+deriving DecidableEq, Repr
+
+/-- a task-typed place of the value holds a task that never went through `submit()` -/
+def unsubmitted (tasks jobAttr : List Nat) : Ty → PyVal → Bool
+  | .cfg c, .config _ m => tasks.contains c && !jobAttr.contains m
+  | .opt t, v => unsubmitted tasks jobAttr t v
+  | .list t, .list vs => vs.any (unsubmitted tasks jobAttr t)
+  | .dict t, .dict _ vs => vs.any (unsubmitted tasks jobAttr t)
+  | _, _ => false
+
+def Graph.setVal (g : Graph) (n k : Nat) (v : PyVal) : Graph :=
+  match g.nodes[n]? with
+  | none => g
+  | some nd => { g with nodes := g.nodes.set n { nd with vals := nd.vals.set k (some v) } }
+
+/-- `seal`: every node reachable through values (lists and dicts included), pre-tasks and init tasks -/
+def sealWalk (g : Graph) (root : Nat) : List Nat :=
+  (walkNode (fun n => (visits (nodeItems true g n)).map .visit) (g.nodes.length + 1) [] root).2
+
+def hstep (I : Impl) (s : HState) : HOp → HOut × HState
+  | .submit n =>
+    if n ∈ s.jobAttr then (.already, s)
+    else match s.g.nodes[n]? with
+      | none => (.noSuchNode, s)
+      | some nd =>
+        if !s.g.tasks.contains nd.cls then (.notTask, s)
+        else
+          let r := validateFrom I s.g s.flags n
+          if r.1 = .ok then
+            (.accepted, { s with jobAttr := n :: s.jobAttr, flags := r.2, sealed := sealWalk s.g n ++ s.sealed,
+                                 registry := n :: s.registry })
+          else (.rejected r.1, { s with jobAttr := n :: s.jobAttr, flags := r.2 })
+  | .assign n k v =>
+    if n ∈ s.sealed then (.readonly, s)
+    else match s.g.nodes[n]? with
+      | none => (.noSuchNode, s)
+      | some nd =>
+        match (s.g.args nd.cls)[k]? with
+        | none => (.noSuchNode, s)
+        | some a =>
+          match setArg I a v with
+          | .error .attribute => (.readonly, s)
+          | .error _ => (.invalid, s)
+          | .ok w =>
+            if unsubmitted s.g.tasks s.jobAttr a.ty w then (.invalid, s)
+            else (.stored, { s with g := s.g.setVal n k w })
+
+/-- the run of a history: (state before, operation, outcome) for every operation -/
+def hrun (I : Impl) : HState → List HOp → List (HState × HOp × HOut)
+  | _, [] => []
+  | s, op :: ops => (s, op, (hstep I s op).1) :: hrun I (hstep I s op).2 ops
+
+/-- every assignment of the history goes to an object that no successful validation has flagged
+    (such an object is sealed, the real assignment raises) -/
+def Admissible (I : Impl) : HState → List HOp → Prop
+  | _, [] => True
+  | s, op :: ops => (∀ n k v, op = .assign n k v → n ∉ s.flags) ∧ Admissible I (hstep I s op).2 ops
 
 end XpmVerif.Validate
